@@ -120,19 +120,22 @@ func (c *Container) addHandler(service *WebService, serveMux *http.ServeMux, reg
 		serveMux.HandleFunc("/", c.dispatch)
 		return true
 	}
-	// detect if registration already exists
-	alreadyMapped := false
-	for _, each := range registered {
-		if each.RootPath() == service.RootPath() {
-			alreadyMapped = true
-			break
+	// detect if registration already exists ; a WebService registers the fixed prefix of its root path
+	// and, unless that ends with a slash, the same pattern with a slash appended
+	alreadyMapped := func(candidate string) bool {
+		for _, each := range registered {
+			eachPattern := fixedPrefixPath(each.RootPath())
+			if candidate == eachPattern || (!strings.HasSuffix(eachPattern, "/") && candidate == eachPattern+"/") {
+				return true
+			}
 		}
+		return false
 	}
-	if !alreadyMapped {
+	if !alreadyMapped(pattern) {
 		serveMux.HandleFunc(pattern, c.dispatch)
-		if !strings.HasSuffix(pattern, "/") {
-			serveMux.HandleFunc(pattern+"/", c.dispatch)
-		}
+	}
+	if !strings.HasSuffix(pattern, "/") && !alreadyMapped(pattern+"/") {
+		serveMux.HandleFunc(pattern+"/", c.dispatch)
 	}
 	return false
 }
